@@ -20,7 +20,7 @@ RULE = ("Hypothesis-generated synthetic checkpoints (1-3 nested levels, non-cubi
         "field list; levels, boxes, time, bounds; every box == interior of the state FAB bit-exact (species / sum when "
         "flooring, rtol 1e-14) followed by the gradp / I_R FAB with the same index range; min/max rows == extrema of "
         "the written data; checkpoint snapshot unchanged; two numpy.empty / empty_like poisons give identical trees (one checkpoint in four holds cells without any species: what flooring makes of them is not asserted, only that it is determined by the checkpoint). "
-        "Non-trivial = >= 2 levels, or a scattered / non-monotone subset layout, or state and gradp layouts differ.")
+        "The second conversion's object converts once more into the same place. Non-trivial = >= 2 levels, or a scattered / non-monotone subset layout, or state and gradp layouts differ.")
 ASSUMPTIONS = ["checkpoint format as in test_assets/example_chk_3d (five subsets, nodal p, ghosted state / divU)",
                "non-integral times (the reader's heuristic for the optional integer line)"]
 
@@ -55,7 +55,7 @@ def write_reference_plotfile(path, names):
     plotgen.write(plotgen.Plot(spec), path)
 
 
-def run(case, chkdir, pltdir, poison, sched):
+def run(case, chkdir, pltdir, poison, sched, again=False):
     import sys
     c2p = sys.modules["amr_kitchen.chk2plt.chk2plt"]
     sp = species_names(case["spec"]["nspec"])
@@ -75,7 +75,10 @@ def run(case, chkdir, pltdir, poison, sched):
                 argv += ["-s"] + sp if case["source"] == "list" else ["-p", "refplt"]
                 common.run_main(cli.main, argv)
             else:
-                qcall(c2p.chk2plt, chkdir, **kw)
+                obj = qcall(c2p.chk2plt, chkdir, **kw)
+                if again:
+                    # the same object converts once more into the same place: the result is the same plotfile
+                    qcall(obj.convert)
     finally:
         pools.set_schedule(None)
 
@@ -200,11 +203,12 @@ def check_case(case, ctx):
                 v.append(f"level {l} box {b}: min/max rows are not the extrema of the written data")
             if len(v) >= 4:
                 return v
-    # determined by stored data only: a second conversion under another poison gives the same tree
+    # determined by stored data only: a second conversion under another poison - by an object that then converts once
+    # more into the same place - gives the same tree
     from ..harness import tree_files
     first = tree_files(expected_out)
     try:
-        run(case, chkarg, "out_plt2", POISONS[1], None)
+        run(case, chkarg, "out_plt2", POISONS[1], None, again=True)
         second = tree_files("out_plt2")
         if first != second:
             diff = [k for k in first if first[k] != second.get(k)][:3]
